@@ -6,6 +6,7 @@ import (
 	"io"
 	"net/http"
 	"os"
+	"strings"
 	"time"
 
 	"lfsverif/internal/cluster"
@@ -91,6 +92,94 @@ func refusedImportOverLog(c *common.Ctx) error {
 			c.Violate(key+":position", fmt.Sprintf("a refused import (%s, answered %d) moved the position from %s to %s", name, resp.StatusCode, pos, np), rep)
 		} else if code != 200 || !bytes.Equal(before, after) {
 			c.Violate(key+":changed", fmt.Sprintf("a refused import (%s, answered %d) on a WAL-mode database whose last transaction is in the log only: GET /export returned %d bytes before and %d bytes (status %d) after, and they differ - the position is still %s", name, resp.StatusCode, len(before), len(after), code, pos), rep)
+		}
+	}
+	return nil
+}
+
+// importOtherPageSize: POST /import of a complete, well-formed image whose page size is not the existing database's, for
+// a rollback-journal and a WAL-mode database. The pages of an existing database can only be replaced by pages of the same
+// size: the request is refused, and the refusal changes nothing - no transaction file, same position, same export, the
+// node keeps running.
+func importOtherPageSize(c *common.Ctx, wal bool) error {
+	dir, err := os.MkdirTemp(c.OutDir, "c20p-")
+	if err != nil {
+		return err
+	}
+	defer os.RemoveAll(dir)
+	clu := cluster.New(dir, 2*time.Second)
+	defer clu.Close()
+	p, err := clu.Start("p", true)
+	if err != nil {
+		return err
+	}
+	if clu.WaitPrimary(5*time.Second) == nil {
+		return fmt.Errorf("no primary")
+	}
+	const ps = 4096
+	h := hist.NewOn(c, c.Rng.Fork(), hist.Config{PageSize: ps, AllowWAL: true}, p.Store, p.Exits, knownDB, nil, 0, false)
+	steps := []hist.Step{
+		{Op: "rtx", Writes: map[uint32]uint64{1: 1, 2: 2, 3: 3}, NewSize: 3, ToWAL: wal},
+		{Op: "rtx", Writes: map[uint32]uint64{2: 12}, NewSize: 3},
+	}
+	if wal {
+		steps[1] = hist.Step{Op: "wtx", Frames: [][2]uint64{{2, 12}}, NewSize: 3}
+	}
+	for _, st := range steps {
+		if ob := h.Exec(st); ob.Err != "" || ob.Panic != "" {
+			return fmt.Errorf("setup: %s%s", ob.Err, ob.Panic)
+		}
+	}
+	export := func() ([]byte, int) {
+		resp, err := http.Get(p.Server.URL() + "/export?name=" + knownDB)
+		if err != nil {
+			return nil, 0
+		}
+		defer resp.Body.Close()
+		b, _ := io.ReadAll(resp.Body)
+		return b, resp.StatusCode
+	}
+	ltxFiles := func() string {
+		ents, _ := os.ReadDir(p.Store.DB(knownDB).LTXDir())
+		s := ""
+		for _, e := range ents {
+			if strings.HasSuffix(e.Name(), ".ltx") {
+				s += e.Name() + ","
+			}
+		}
+		return s
+	}
+	for _, ips := range []int{8192, 512, 65536} {
+		var body bytes.Buffer
+		for pg := uint32(1); pg <= 3; pg++ {
+			body.Write(lfs.MakePage(ips, pg, 900+uint64(pg), 3, wal))
+		}
+		before, _ := export()
+		pos, files := p.Store.DB(knownDB).Pos(), ltxFiles()
+		resp, err := http.Post(p.Server.URL()+"/import?name="+knownDB, "application/octet-stream", bytes.NewReader(body.Bytes()))
+		c.Evaluations++
+		c.Distinct(fmt.Sprintf("import-other-page-size:%v:%d", wal, ips))
+		rep := map[string]any{"kind": "api-import-other-page-size", "wal": wal, "database_page_size": ps, "image_page_size": ips}
+		key := fmt.Sprintf("C20:import:other-page-size:%s:%d", map[bool]string{true: "wal", false: "rollback"}[wal], ips)
+		if err != nil {
+			c.Violate(key+":no-response", fmt.Sprintf("POST /import got no response: %v", err), rep)
+			return nil
+		}
+		_, _ = io.Copy(io.Discard, resp.Body)
+		resp.Body.Close()
+		if ex := p.Exits(); len(ex) > 0 {
+			c.Violate(key+":exit", fmt.Sprintf("POST /import of a %d-byte-page image into a database with %d-byte pages (answered %d) made the node call Exit(%v); log before [%s], after [%s]", ips, ps, resp.StatusCode, ex, files, ltxFiles()), rep)
+			return nil
+		}
+		if resp.StatusCode >= 200 && resp.StatusCode < 300 {
+			c.Violate(key+":accepted", fmt.Sprintf("POST /import of a %d-byte-page image into a database with %d-byte pages was answered %d", ips, ps, resp.StatusCode), rep)
+			return nil
+		}
+		after, code := export()
+		if np, nf := p.Store.DB(knownDB).Pos(), ltxFiles(); np != pos || nf != files {
+			c.Violate(key+":position", fmt.Sprintf("the refused import (answered %d) moved the position from %s to %s / the log from [%s] to [%s]", resp.StatusCode, pos, np, files, nf), rep)
+		} else if code != 200 || !bytes.Equal(before, after) {
+			c.Violate(key+":changed", fmt.Sprintf("the refused import (answered %d) changed what GET /export returns (%d -> %d bytes, status %d)", resp.StatusCode, len(before), len(after), code), rep)
 		}
 	}
 	return nil
